@@ -109,13 +109,39 @@ class RecPath:
     def __truediv__(self, o):
         return RecPath(("join", self.p, o))
 
-    def open(self, *a, **k):
-        RecPath.fs.ops.append(("open", self.p, a))
+    def open(self, mode="r", *a, **k):
+        if isinstance(mode, str) and mode.replace("t", "").replace("b", "") in ("w", "x"):
+            return RecFile(self.p)
+        RecPath.fs.ops.append(("open", self.p, (mode,) + a))
         raise OSError("open through the recording model")
 
     def __fspath__(self):
         RecPath.fs.ops.append(("fspath", self.p))
         raise OSError("real file-system access through the recording model")
+
+
+class RecFile:
+    """A file opened for writing through the model: the write is recorded when the file is closed (one write() call is
+    the common case; several are recorded as a tuple of pieces, which no expectation matches)."""
+
+    def __init__(self, p):
+        self.p, self.parts, self.closed = p, [], False
+
+    def write(self, text):
+        self.parts.append(text)
+        return 0
+
+    def close(self):
+        if not self.closed:
+            self.closed = True
+            RecPath.fs.ops.append(("write", self.p, self.parts[0] if len(self.parts) == 1 else tuple(self.parts)))
+
+    def __enter__(self):
+        return self
+
+    def __exit__(self, *a):
+        self.close()
+        return False
 
 
 class RecPathlib:
@@ -160,6 +186,7 @@ def _setup():
     codegen.print = lambda *a, **k: RecPath.fs.ops.append(("print", a))
     codegen.str = lambda x="": x if type(x) in (SymAtom, SymText) else str(x)
     codegen.len = _sym_len
+    codegen.open = lambda p_, mode="r", *a, **k: RecPath(p_).open(mode, *a, **k)
     import logging
     logging.getLogger().setLevel(logging.CRITICAL)
     return codegen
